@@ -615,11 +615,11 @@ def run(ctx):
         for k, toks in enumerate(enum_atomic(2, 3, ops=("c", "p", "f", "l"))):
             plans.append((f"l3-{k}", 2, toks, True, "atomic-pull"))
         rr = r.fork("quick-random")
-        for k, toks in enumerate(rr.shuffle(enum_atomic(2, 5))[:220]):
+        for k, toks in enumerate(rr.shuffle(enum_atomic(2, 5))[:160]):
             plans.append((f"a5-{k}", 2, toks, True, "atomic-len5-sample"))
-        for k, toks in enumerate(rr.shuffle(enum_atomic(3, 4))[:80]):
+        for k, toks in enumerate(rr.shuffle(enum_atomic(3, 4))[:60]):
             plans.append((f"b4-{k}", 3, toks, True, "atomic-3clones-len4-sample"))
-        for k in range(60):
+        for k in range(50):
             plans.append((f"q{k}", 3, gen_random(rr, 3, rr.range(5, 9)), True, "random3"))
     else:
         for L in (4, 5):
@@ -738,7 +738,7 @@ def run(ctx):
                 "fetches optionally split at the rendezvous points) by 2-3 real clones of one bare remote, all through the "
                 "proxy; quick: ALL atomic schedules of length 4 over 2 clones x {commit,push,fetch} up to clone renaming with "
                 ">=1 commit and >=1 sync, all of length 3 with pull added, all interleavings of a 3-part push with the other clone's programs, both pushes "
-                "split, split fetches, samples of the length-5 (2 clones) and length-4 (3 clones) atomic schedules, 60 random "
+                "split, split fetches, samples of the length-5 (2 clones) and length-4 (3 clones) atomic schedules, 50 random "
                 "3-clone schedules with late clones, pulls and split operations; each followed by the closing suffix; non-trivial = "
                 "distinct schedule with a commit and a sync step; every step observed on every holder",
         "samples": [tok_str(p[2]) for p in plans[:3]] + [tok_str(K1_WITNESS)],
